@@ -32,6 +32,9 @@ def run(chk, args):
          "families": QUICK_FAMILIES if q else FAMILIES + ",xs2,xs3", "classes": CLASSES},
         {"kind": "walk", "source": "family", "ns": "3,4,5", "count": 24 if q else 96, "gaps": "exploitability",
          "families": "xs2,xs3,xs6,oxs,noisy_factory,noisy_factory_square", "classes": CLASSES},
+        # five players with the SAM approximations on integer SAM families (exact ties: intervals become degenerate before they are revealed)
+        {"kind": "walk", "source": "family", "ns": "5", "count": 12 if q else 48, "gaps": "l1_norm,linf_norm",
+         "families": "k_budget_generator,covg_fn_generator", "classes": "sam_apx_1,sam_apx_10"},
         # 2^n beyond 64 and 128: short episodes (fixed-width integer types and bit-mask keys change behaviour there)
         {"kind": "walk", "ns": "7,8", "count": 3 if q else 12, "classes": "superadditive_cached,sam_apx_1"},
     ])
